@@ -4,7 +4,7 @@ RIP_REPO, /repo untouched) and refresh `checks_that_alarm` / `checks_output` in 
 Keeps the first recorded verdict as `checks_that_alarm_when_filed`."""
 import glob, json, os, re, subprocess, sys
 V = os.path.dirname(os.path.dirname(os.path.abspath(__file__)))
-WT = '/tmp/vs'
+WT = os.environ.get('RESEED_WT', '/tmp/vs')
 only = set(sys.argv[1:])
 if not os.path.isdir(WT):
     subprocess.run(['git', '-C', '/repo', 'worktree', 'add', '-q', '--detach', WT, 'HEAD'], check=True)
